@@ -22,13 +22,13 @@ func registerC01() {
 			"(header, file_id, the one-field definition, one matching data record; two more data patterns, all-0xFF and NUL-rich, if the definition was accepted) is decoded under " +
 			"a panic/hang guard; every rejected definition with a known base type is retried on a slot that already holds the same field definition for an unknown message; every 61st stream also goes through all six entry points with 1-byte and greedy chunkers. Family mutants: PRNG structured mutations (bit/byte flips, " +
 			"splices, truncation, extension, header edits, definition edits, record-header edits, size lies; CRC recomputed for half) of device files and model streams, each fed to the six " +
-			"entry points under three chunkers. Family monsters: well-formed streams whose definitions have up to 255 fields and 255 developer fields of up to 255 bytes, half of them with a total record size placed at a 16-bit boundary (65535, 65536, 65537, 64 KiB +- 300, 128 KiB - 1100...), under whole-buffer and short-read chunkers. Family sizes: valid and mutated small files whose header data-size field is set to boundary values (0, 1, the true size +-k, 2^31-1, 2^31, 2^32-1, ...) with and without matching CRCs, through the six entry points. The mutants, multidefs and sizes families are run a second time in a GOARCH=386 binary (32-bit int) when the host can execute it. Family zones: activity files whose local timestamps are every quarter hour from -30 h to +30 h (and seconds to either side, and far-out values) away from the UTC reference. Family multidefs: PRNG streams of 1-4 definitions with 1-8 ARBITRARY field definitions each (any field number, size, base byte; " +
+			"entry points under three chunkers. Family monsters: well-formed streams whose definitions have up to 255 fields and 255 developer fields of up to 255 bytes, half of them with a total record size placed at a 16-bit boundary (65535, 65536, 65537, 64 KiB +- 300, 128 KiB - 1100...), under whole-buffer and short-read chunkers. Family sizes: valid and mutated small files whose header data-size field is set to boundary values (0, 1, the true size +-k, 2^31-1, 2^31, 2^32-1, ...) with and without matching CRCs, through the six entry points. The mutants, multidefs and sizes families are run a second time in a GOARCH=386 binary (32-bit int) when the host can execute it. Family zones: activity files whose local timestamps are every quarter hour from -30 h to +30 h (and seconds to either side, and far-out values) away from the UTC reference. Family devdata: streams whose developer fields are announced by developer_data_id and field_description messages (base type id: any byte). Family multidefs: PRNG streams of 1-4 definitions with 1-8 ARBITRARY field definitions each (any field number, size, base byte; " +
 			"developer-field lists; known and unknown messages; occasionally an illegal arch byte) followed by data records of exactly the defined sizes (some behind compressed headers), " +
 			"framed with correct CRCs, decoded with and without options (formatting logger, unknown lists) under two chunkers. A case is one stream; in family fielddefs each is distinct by construction and counted non-trivial because it reaches the definition validator; " +
 			"mutants are distinct by digest",
 		Assume:        []string{"a hang is decided logically (more than 10000 reads after the input ended) or by the doubly-confirmed wall-clock watchdog"},
 		MinNontrivial: 1000000,
-		Families386:   []string{"mutants", "multidefs", "sizes", "monsters", "zones"},
+		Families386:   []string{"mutants", "multidefs", "sizes", "monsters", "zones", "devdata"},
 		Families: []lib.Family{
 			{Name: "fielddefs", N: func(t string) uint64 { return uint64(len(c01Pairs(t))) }, Run: c01FieldDefs},
 			{Name: "mutants", N: func(t string) uint64 { return tierN(t, 60000, 3000000) }, Run: c01Mutant},
@@ -36,6 +36,7 @@ func registerC01() {
 			{Name: "sizes", N: func(t string) uint64 { return tierN(t, 4000, 100000) }, Run: c01Sizes},
 			{Name: "multidefs", N: func(t string) uint64 { return tierN(t, 150000, 5000000) }, Run: c01MultiDefs},
 			{Name: "zones", N: func(t string) uint64 { return uint64(len(zoneGridOffsets())) * 2 }, Run: c01Zones},
+			{Name: "devdata", N: func(t string) uint64 { return tierN(t, 20000, 600000) }, Run: c01DevData},
 		},
 		Exhaustive: func(t string) bool { return true },
 		Finish: func(c *lib.Ctx, cov map[string]interface{}) {
@@ -444,6 +445,29 @@ func c01Zones(c *lib.Ctx, idx uint64) {
 	}
 	c.Nontrivial(b)
 	c.Count("zone_offsets_decoded", 1)
+}
+
+// c01DevData: streams in which every definition with developer fields is announced the way a
+// device does it (developer_data_id, then a field_description per developer field giving index,
+// field number and a base type id that may be any byte), followed by data: whatever a decoder
+// does with the descriptions, it must not panic.
+func c01DevData(c *lib.Ctx, idx uint64) {
+	rng := lib.NewRand("C01.devdata", idx)
+	ft := lib.FileTypes[idx%uint64(len(lib.FileTypes))].Type
+	o := lib.GenOpts{FileType: ft, Records: 3 + rng.Intn(10), Locals: 1 + rng.Intn(3), Redefine: 40, BigEndian: 50, Unknown: 100, MaxFields: 3, DevDescribe: 100, Compressed: 10, NoTimeZero: true}
+	b := lib.NewPlanGen(rng, o).Fill().Bytes()
+	c.SetInflight(b)
+	for _, ep := range []string{"Decode", "DecodeChained", "DecodeHeaderAndFileID"} {
+		o := lib.Guard(func() {
+			lib.Call(ep, lib.NewReader(b, lib.Chunker{Kind: []string{"whole", "one"}[idx/17%2]}), optionList(int(idx%8), &countingLogger{}, idx)...)
+		})
+		c.Eval()
+		if o.Panicked || o.Hang {
+			c.Violation(b, "%s panicked/hung (hang=%v) on a well-formed stream with described developer fields: %s\n%s", ep, o.Hang, o.Panic, o.Stack)
+			return
+		}
+	}
+	c.Nontrivial(b)
 }
 
 func c01MultiDefs(c *lib.Ctx, idx uint64) {
